@@ -703,7 +703,7 @@ class _Literals(ast.NodeTransformer):
 
     def visit_AnnAssign(self, node):
         self.generic_visit(node)
-        if node.value is not None and isinstance(node.target, ast.Name) and node.simple:
+        if node.value is not None and (isinstance(node.target, ast.Name) and node.simple or isinstance(node.target, ast.Attribute)):
             # `x: T = v` binds x exactly as `x = v` does
             return ast.copy_location(ast.Assign([node.target], node.value), node)
         return node
